@@ -85,6 +85,9 @@ type kase struct {
 	PClass       string            `json:"remote_ip_class"`
 	VClass       string            `json:"victim_ip_class"`
 	BigProtoBook bool              `json:"peerstore_protocol_cap_lifted"`
+	// the victim's address book has room for ONE unconnected address (pstoremem.WithMaxAddresses(1)) and the
+	// seeded peers fill it: every downgrade of P's addresses at the last disconnect is refused by the book
+	FullAddrBook bool `json:"peerstore_unconnected_address_room_exhausted,omitempty"`
 	PKnown       bool              `json:"P_known_beforehand"`
 	ConcConnect  bool              `json:"connect_concurrently"`
 	ConcPush     bool              `json:"push_concurrently"`
@@ -127,6 +130,7 @@ func (s *state) genCase(i int, raceOnly bool) *kase {
 	// by the case index (every combination is reached every 12*2*3*4 = 288 cases), the rest is random
 	j := i / len(flavours)
 	k := &kase{ID: fmt.Sprintf("case/%d", i), Flavour: fl, Sec: []string{"noise", "tls"}[j%2], FinalBy: pick(rng, "victim", "remote")}
+	k.FullAddrBook = i%7 == 3
 	k.PClass = []string{"pub", "priv", "loop"}[j/2%3]
 	types := []string{"ed25519", "ed25519", "ecdsa", "secp256k1", "rsa"}
 	kt := func(typ string) *sectest.Key {
@@ -416,6 +420,7 @@ func TestC13(t *testing.T) {
 	r.Require("after_disconnect_trimmed_to_20", q(300, 6000))
 	r.Require("retained_checks_with_addresses", q(200, 4000))
 	r.Require("final_expiry_checks_with_addresses", q(1200, 24000))
+	r.Require("final_expiry_checks_with_the_address_book_full", q(100, 2000))
 	r.Require("final_expiry_checks_with_addresses_raced", q(400, 8000))
 	r.Require("identify_wait_released_by_timeout", q(60, 1200))
 	r.Require("identify_wait_released_promptly", q(4000, 80000))
